@@ -108,7 +108,7 @@ def coq_string(s):
 
 
 def norm(s):
-    return re.sub(r"\s+", " ", F.strip_comments(s)).strip()
+    return re.sub(r"\s+", " ", F.strip_comments(s, canonical=False)).strip()
 
 
 def regex_defs(text):
@@ -159,7 +159,7 @@ def regex_defs(text):
 
 def gen():
     raw = F.src(DET)
-    t = F.strip_comments(raw)
+    t = F.strip_comments(raw, canonical=False)
     out = [F.HEADER]
     classes = {}
     for n in ("PERIODS", "DOT", "COMMA", "ALPHABET_OR_NUMBER", "OPEN_PARENTHESIS", "CLOSE_PARENTHESIS"):
@@ -247,7 +247,7 @@ def gen():
     out.append("Definition checker_initial_bos : N := %s%%N.\n" % m.group(1))
 
     # the iterator
-    sp = F.strip_comments(F.src(SPL))
+    sp = F.strip_comments(F.src(SPL), canonical=False)
     out.append("Definition iter_next_body : string := %s.\n" % coq_string(norm(F.fn_body(sp, "next", SPL))))
     if re.search(r"\.bos\s*=", sp):
         raise F.FactError("sentence_splitter.rs now assigns NonBreakChecker::bos (the model keeps it at its initial value)")
@@ -259,7 +259,7 @@ def gen():
         raise F.FactError("SentenceDetector::new no longer uses DEFAULT_LIMIT")
 
     # the CLI: default window + dictionary-based checker, sentences consumed in iteration order
-    cli = F.strip_comments(F.src(CLI))
+    cli = F.strip_comments(F.src(CLI), canonical=False)
     call = r"\((?:[^(){};]|\([^(){};]*\))*\)"
     ctors = re.findall(r"SentenceSplitter::[a-z_]+" + call + r"(?:\s*\.\s*[a-z_]+" + call + r")*", cli)
     out.append("Definition cli_splitter_ctors : list string := [ %s ].\n" % "; ".join(coq_string(norm(c)) for c in ctors))
